@@ -142,6 +142,38 @@ CLAIMED = {
          "unbalanced ones) and is not counted as proved; strings.Index/ToUpper by A-STR; the text rendered by fmt.Sprintf in the prop "
          "shorthand is not modelled. " + TRUST),
 
+ "C09": ("proof",
+         "A start-up failure anywhere is tracked by the ghost flag Failed (raised exactly when a callback or built-in check returns an "
+         "error) and every function between the failing place and Run carries the obligation [failure-surfaces]: result == nil implies "
+         "Failed unchanged. Proved for: the built-in property processors (required value / required configuration / required component "
+         "missing => error, [required-missing-errors], [required-empty-errors]; optional ones are skipped and their field's memory is "
+         "untouched, [optional-empty-value-skipped], [optional-missing-config-skipped], frame of Inject), which are checked to refine the "
+         "interface-level post-processor contract (implements + ghost at return); ResolveAfterInstantiation, populateComponent, "
+         "doCreateComponent, doGetComponent, Refresh (refines (Factory).Refresh), invokeInitMethods / before / after initialization "
+         "(AfterPropertiesSet, Init, post-processor callbacks), the parallel definition scan (lock invariant: a recorded scan failure is on "
+         "the error list), configuration loading, App.refresh / run / Run: [run-reports-failure] implies(Failed, result != nil) and "
+         "[no-runner-unless-refreshed]; callRunners requires Refreshed && !Failed. No-panic obligations are discharged on all these paths.",
+         "DESIGN.md section 5 C09",
+         "contract-based deductive verification (govc WP over go/ssa, z3/cvc5)",
+         "Hang-freedom is not covered (termination of the creation recursion is stage B). defaultFactory.PrepareComponents and "
+         "InvokeBeanFactoryPostProcessors are used through the interface-level phase contract (not yet proved against their bodies). "
+         "Property.Unmarshall is trusted (third-party decoding; it writes only its own field). Own preconditions of the built-in processors "
+         "are assumed at dynamic dispatch (A-WIRING, listed per function in the evidence). logger.Fatalf is assumed not to return. " + TRUST),
+ "C20": ("other",
+         "Race freedom of the two concurrent phases by the fork/join rule: every go statement needs a thread contract; at the join the "
+         "obligation [thread-frames-disjoint] demands that no two live threads write the same real location; shared locations must be "
+         "declared guarded by a mutex, and then every read and write of them in the thread body carries a lockset obligation (mutex held), "
+         "Lock/Unlock carry non-reentrancy / held preconditions, the lock invariant is re-established at Unlock and the mutex is released "
+         "at thread end. Scan phase: one thread per delivered map key (names distinct: loop invariant over the visited set), the error list "
+         "is guarded (after the repair of F-C20 - before it [thread-frames-disjoint:errs] failed), Add == number of forks. Close phase: one "
+         "thread per closer, per-thread slots, Done exactly once on every path. The second sentence of the property (linearizability of "
+         "sync2.Map / ConcurrentSet histories, LoadOrStoreFn atomicity) is NOT decided: sequential contracts cannot express it - level "
+         "'other' for that reason.",
+         "DESIGN.md section 5 C20",
+         "contract-based deductive verification (govc WP over go/ssa, z3/cvc5): fork/join + lockset rule",
+         "What a scanner callback writes is abstracted as the region ScanRegion[name] (A-CALLBACK: a scan of component X stays inside X's "
+         "definition and the synchronised registry); the built-in tag scanner is not yet proved against that region. sync.Map and "
+         "sync.WaitGroup / sync.Mutex semantics are trusted (A-WG, A-MUTEX, A-SYNCMAP). syslog's concurrent use is not modelled. " + TRUST),
  "C06": ("proof",
          "Candidate collection is verified per processor for an arbitrary property list and definition registry: for a nameless wire point of "
          "pointer type exactly the definitions whose value has that type are appended, for an interface type exactly the implementers "
